@@ -36,6 +36,10 @@ OBS_BODY = """
    <k><xsl:value-of select="key('k','2')"/>|<xsl:value-of select="count(key('kc','1'))"/></k>
    <xsl:apply-templates select="doc/b" mode="m"/>
    <xsl:for-each select="//c"><xsl:sort select="." data-type="number"/><n><xsl:number level="any" count="c"/>:<xsl:number level="multiple" count="b|c" format="1.a"/>:<xsl:value-of select="."/></n></xsl:for-each>
+   <s1><xsl:for-each select="//c"><xsl:sort select="string-length(.)"/><xsl:value-of select="."/>,</xsl:for-each></s1>
+   <s2><xsl:for-each select="//a|//c"><xsl:sort select="name()" order="descending"/><xsl:value-of select="."/>,</xsl:for-each></s2>
+   <s3><xsl:apply-templates select="//c" mode="m"><xsl:sort select="count(*)" data-type="number"/></xsl:apply-templates></s3>
+   <fn><xsl:value-of select="format-number(1234.5, '#,##0.00')"/></fn>
    <xsl:variable name="rtf"><r><xsl:copy-of select="doc/a"/></r></xsl:variable>
    <xsl:copy-of select="$rtf"/>
    <xsl:call-template name="rec"><xsl:with-param name="n" select="3"/></xsl:call-template>
@@ -105,6 +109,27 @@ SHEETS = {
     "char_comment": _sheet('<xsl:output method="xml" encoding="US-ASCII" omit-xml-declaration="yes"/>', "", '<out><xsl:call-template name="observe"/><xsl:comment>&#233;</xsl:comment><xsl:processing-instruction name="pi">&#233;</xsl:processing-instruction></out>'),
     "recurse": _sheet(OUT_XML, '<xsl:template name="inf"><xsl:param name="n"/><xsl:if test="$n &lt; 300"><d><xsl:call-template name="inf"><xsl:with-param name="n" select="$n + 1"/></xsl:call-template></d></xsl:if><xsl:if test="$n = 300">' + MSG + '</xsl:if></xsl:template>',
                       '<out><xsl:call-template name="inf"><xsl:with-param name="n" select="0"/></xsl:call-template></out>'),
+    # failures INSIDE xsl:sort processing (after one or more keys were set up), xsl:key building, xsl:number, format-number,
+    # document() in the middle of a for-each
+    "sort_avt": _sheet(OUT_XML, "", '<out><xsl:for-each select="//c"><xsl:sort select="." data-type="number" order="descending"/>'
+                       '<xsl:sort select="@x" order="{$p1}"/><v><xsl:value-of select="."/></v></xsl:for-each><xsl:call-template name="observe"/></out>'),
+    "sort_avt3": _sheet(OUT_XML, "", '<out><xsl:apply-templates select="//c|//a" mode="m"><xsl:sort select="name()" order="descending"/>'
+                        '<xsl:sort select="." order="descending"/><xsl:sort select="@id" data-type="{$p2}"/></xsl:apply-templates></out>'),
+    "sort_fnerr": _sheet(OUT_XML, "", '<out><xsl:for-each select="//c"><xsl:sort select="string-length(.)" order="descending"/>'
+                         '<xsl:sort select="ext:nosuch(.)"/><v><xsl:value-of select="."/></v></xsl:for-each></out>'),
+    "sort_caseorder": _sheet(OUT_XML, "", '<out><xsl:for-each select="//a"><xsl:sort select="@id" data-type="number" order="descending"/>'
+                             '<xsl:sort select="." case-order="{$p1}"/><v><xsl:value-of select="."/></v></xsl:for-each></out>'),
+    "key_err": _sheet(OUT_XML, '<xsl:key name="kb" match="c" use="ext:nosuch(.)"/>',
+                      '<out><xsl:for-each select="//c"><xsl:sort select="." order="descending"/><v><xsl:value-of select="count(key(\'kc\', .))"/>'
+                      '<xsl:if test="position() = 2"><xsl:value-of select="count(key(\'kb\', 1))"/></xsl:if></v></xsl:for-each></out>'),
+    "num_err": _sheet(OUT_XML, "", '<out><xsl:for-each select="//c"><xsl:sort select="." order="descending"/><xsl:number level="any" count="c"/>'
+                      '<xsl:if test="position() = 2"><xsl:number value="ext:nosuch()" format="1.a"/></xsl:if></xsl:for-each></out>'),
+    "num_group": _sheet(OUT_XML, "", '<out><xsl:for-each select="//c"><xsl:number value="position() * 1000" grouping-separator="," grouping-size="{$p1}"/></xsl:for-each></out>'),
+    "fmt_err": _sheet(OUT_XML, '<xsl:decimal-format name="df" decimal-separator="," grouping-separator="."/>',
+                      '<out><xsl:for-each select="//c"><xsl:sort select="." order="descending"/><f><xsl:value-of select="format-number(., \'0,0\', \'df\')"/></f>'
+                      '<xsl:if test="position() = 2"><xsl:value-of select="format-number(1, \'0.0.0;;#\', \'nosuchformat\')"/>' + MSG + '</xsl:if></xsl:for-each></out>'),
+    "doc_foreach": _sheet(OUT_XML, "", '<out><xsl:for-each select="//c"><xsl:sort select="." order="descending"/><v><xsl:value-of select="."/></v>'
+                          '<xsl:if test="position() = 2"><xsl:copy-of select="document(\'c06-missing.xml\')/x"/>' + MSG + '</xsl:if></xsl:for-each></out>'),
     # nested for-each / sort / key / RTF / string building: the same body once aborting in the innermost place, once not
     "nest_abort": _sheet(OUT_XML, "", NEST % MSG),
     "nest_ok": _sheet(OUT_XML, "", NEST % ""),
@@ -130,10 +155,10 @@ GOOD_SHEETS = sorted(k for k in SHEETS if k not in BAD_SHEETS)
 OBSERVERS = [k for k in GOOD_SHEETS if k.startswith("obs") or k == "nest_ok"]
 ABORTERS = [k for k in GOOD_SHEETS if k not in OBSERVERS]
 # (stylesheet, source) pairs for the memory probe: live bytes of the transformer's MemoryManager must not grow per call
-LEAK_PROBES = [("obs", "d1"), ("msg_deep", "d1"), ("xperr_deep", "d1"), ("msg_rtf", "d2"), ("nest_abort", "d2"), ("enc_unknown", "d1")]
+LEAK_PROBES = [("obs", "d1"), ("sort_avt", "d1"), ("sort_fnerr", "d2"), ("key_err", "d1"), ("msg_deep", "d1"), ("xperr_deep", "d1"), ("msg_rtf", "d2"), ("nest_abort", "d2"), ("enc_unknown", "d1")]
 GOOD_SOURCES = sorted(k for k in SOURCES if k not in BAD_SOURCES)
 
-PARAM_EXPRS = ["'v1'", "'boom'", "1+2", "'x_y'", "concat('a','b')", "''", "//no/such", "2*3"]
+PARAM_EXPRS = ["'v1'", "'boom'", "'ascending'", "'descending'", "'text'", "'upper-first'", "3", "1+2", "'x_y'", "concat('a','b')", "''", "//no/such", "2*3"]
 PARAM_EXPRS = [e for e in PARAM_EXPRS if " " not in e]
 PARAM_NUMS = ["5", "0", "-2.5", "1e3"]
 PARAM_OBJS = ["B:true", "B:false", "S:text", "S:boom"]
@@ -254,5 +279,14 @@ CORPUS = [
     # F2: abort deep inside nested for-each/sort/key/RTF, then stylesheets that borrow the same cache slots
     ("objstack-reuse-after-abort", ["transformsrc nest_abort d2 1", "transformsrc nest_ok d2 2", "transformsrc nest_abort d1 3", "transformsrc nest_abort d2 4",
                                     "transformsrc nest_ok d1 5", "transformsrc obs d1 6", "transformsrc nest_ok d2 7"]),
+    # break B of the independent seeding: sort keys surviving an abort inside sortChildren
+    ("stale-sort-keys", ["compile 0 sort_avt ok", "compile 1 obs ok", "compile 2 sort_fnerr ok", "parse 0 d1 ok", "parse 1 d2 ok",
+                         "transform 0 0 1", "transform 1 0 2", "transform 1 1 3", "transform 2 1 4", "transform 1 1 5", "transform 1 0 6",
+                         "setexpr p1 'ascending'", "transform 0 0 7", "transform 1 0 8", "setexpr p1 'bogus'", "transform 0 1 9", "transform 1 1 10"]),
+    ("stale-sort-keys-src", ["transformsrc sort_avt d1 1", "transformsrc obs d1 2", "transformsrc sort_avt3 d2 3", "transformsrc obs d2 4",
+                             "transformsrc sort_fnerr d1 5", "transformsrc obs_strip d1 6", "transformsrc sort_caseorder d2 7", "transformsrc nest_ok d2 8"]),
+    ("abort-in-key-number-format", ["compile 0 obs ok", "parse 0 d1 ok", "parse 1 d2 ok", "transformsrc key_err d1 1", "transform 0 0 2", "transformsrc num_err d2 3",
+                                    "transform 0 1 4", "transformsrc fmt_err d1 5", "transform 0 0 6", "transformsrc doc_foreach d2 7", "transform 0 1 8",
+                                    "transformsrc num_group d1 9", "transform 0 0 10"]),
     ("destroy-twice", ["compile 0 obs ok", "dsheet 0", "dsheet 0", "dsource 1", "parse 1 d1 ok", "dsource 1", "dsource 1"]),
 ]
